@@ -147,17 +147,38 @@ def corpus_transform_job(indices: list[int], transforms: list[str]) -> list[dict
             continue
         rec["status"] = "ok"
         float_in = [k for k, x in enumerate(xs) if np.asarray(x).dtype.kind == "f"]
+        def fresh(_fn=fn):
+            # a new function object per use: jax.jit caches traces per underlying function, and the
+            # reference evaluation must not share a trace cache entry with the export (or vice versa)
+            return lambda *a: _fn(*a)
+
         for tr in transforms:
             pr: dict[str, Any] = {}
+            warm = False
             try:
                 if tr == "vmap":
-                    tf = jax.vmap(fn)
+                    mk = lambda: jax.vmap(fresh())  # noqa: E731
                     txs = [np.stack([x, x * (0.5 if np.asarray(x).dtype.kind == "f" else 1)]) for x in xs]
+                elif tr in ("vmap1", "vmap_last"):
+                    # batch dimension in the middle / at the end of every operand
+                    if any(np.asarray(x).ndim < 1 for x in xs):
+                        pr["status"] = "not_applicable"
+                        rec["per_transform"][tr] = pr
+                        continue
+                    ax = 1 if tr == "vmap1" else -1
+                    mk = lambda _ax=ax: jax.vmap(fresh(), in_axes=_ax, out_axes=0)  # noqa: E731
+                    txs = [np.stack([x, x * (0.5 if np.asarray(x).dtype.kind == "f" else 1)], axis=(1 if tr == "vmap1" else np.asarray(x).ndim)) for x in xs]
                 elif tr == "jit":
-                    tf = jax.jit(fn)
+                    mk = lambda: jax.jit(fresh())  # noqa: E731
                     txs = xs
+                elif tr == "jit_warm":
+                    # the user ran the jitted function eagerly before exporting THE SAME object
+                    shared = jax.jit(fresh())
+                    mk = lambda _s=shared: _s  # noqa: E731
+                    txs = xs
+                    warm = True
                 elif tr == "remat":
-                    tf = jax.checkpoint(fn)
+                    mk = lambda: jax.checkpoint(fresh())  # noqa: E731
                     txs = xs
                 elif tr == "grad":
                     if not float_in:
@@ -166,11 +187,13 @@ def corpus_transform_job(indices: list[int], transforms: list[str]) -> list[dict
                         continue
                     k0 = float_in[0]
 
-                    def scalar(*a, _fn=fn):
-                        leaves = jax.tree_util.tree_leaves(_fn(*a))
-                        return sum(jnp.sum(l.astype(a[k0].dtype)) for l in leaves if jnp.issubdtype(l.dtype, jnp.floating))
+                    def mk(_fn=fn, _k0=k0):
+                        def scalar(*a):
+                            leaves = jax.tree_util.tree_leaves(_fn(*a))
+                            return sum(jnp.sum(l.astype(a[_k0].dtype)) for l in leaves if jnp.issubdtype(l.dtype, jnp.floating))
 
-                    tf = jax.grad(scalar, argnums=k0)
+                        return jax.grad(scalar, argnums=_k0)
+
                     txs = xs
                 else:  # jvp
                     if not float_in:
@@ -179,14 +202,17 @@ def corpus_transform_job(indices: list[int], transforms: list[str]) -> list[dict
                         continue
                     k0 = float_in[0]
 
-                    def tf(*a, _fn=fn, _k=k0):
-                        tang = tuple(jnp.ones_like(v) if j == _k else jnp.zeros_like(v) for j, v in enumerate(a))
-                        if any(not jnp.issubdtype(v.dtype, jnp.floating) for v in a):
-                            raise TypeError("jvp needs float primals")
-                        return jax.jvp(_fn, a, tang)[1]
+                    def mk(_fn=fn, _k=k0):
+                        def tfn(*a):
+                            tang = tuple(jnp.ones_like(v) if j == _k else jnp.zeros_like(v) for j, v in enumerate(a))
+                            if any(not jnp.issubdtype(v.dtype, jnp.floating) for v in a):
+                                raise TypeError("jvp needs float primals")
+                            return jax.jvp(_fn, a, tang)[1]
+
+                        return tfn
 
                     txs = xs
-                ref = C.jax_eval(tf, txs, {}, double)
+                ref = C.jax_eval(mk(), txs, {}, double)
             except Exception as ex:  # noqa: BLE001  (JAX itself does not support T(f) on these inputs)
                 pr["status"] = "jax_rejects"
                 pr["why"] = f"{type(ex).__name__}"
@@ -198,7 +224,7 @@ def corpus_transform_job(indices: list[int], transforms: list[str]) -> list[dict
                 continue
             try:
                 specs = [jax.ShapeDtypeStruct(np.asarray(x).shape, np.asarray(x).dtype) for x in txs]
-                m = jax2onnx.to_onnx(tf, specs, enable_double_precision=double, opset=int(tp.get("opset_version", 23)))
+                m = jax2onnx.to_onnx(mk(), specs, enable_double_precision=double, opset=int(tp.get("opset_version", 23)))
             except Exception as ex:  # noqa: BLE001
                 pr["status"] = "export_failed"
                 pr["why"] = f"{type(ex).__name__}: {str(ex)[:120]}"
